@@ -272,6 +272,8 @@ def apply_step(f, step, case):
                 return None  # refused by the library (C12); not part of this check
         f.rotate90(dims[a], dims[b], k=step[4], inplace=True)
     elif kind == "subregions":
+        if float(np.max(np.abs([f.mesh.region.pmin, f.mesh.region.pmax]))) > 100.0:
+            return None  # e.g. a k-space mesh (1e6 ... 1e9 per metre): beyond the absolute 1e-12 alignment tolerance
         rng = np.random.default_rng(step[2])
         pmin = np.asarray(f.mesh.region.pmin, dtype=float)
         cell = np.asarray(f.mesh.cell, dtype=float)
